@@ -38,10 +38,10 @@ SCRATCH_ROOT = '/dev/shm' if os.path.isdir('/dev/shm') else tempfile.gettempdir(
 TREE = [
     'A/song.mp3', 'A/my long song.mp3', 'A/So_Long-Live (été).flac', 'A/01 - ong.mp3',
     'A/zzsub/片仮名 song.mp3', 'A/zzsub/live [01] & so.mp3', "A/zzsub/deep/long's.ogg",
-    'A/other/honey money.txt', 'B/song.mp3', 'B/live/SONG_long.MP3', 'B/été/01.flac',
+    'A/other/honey money.txt', 'A/other/zzsub/so long.mp3', 'B/song.mp3', 'B/live/SONG_long.MP3', 'B/été/01.flac',
 ]
 EXTRA = ['A/zzsub/new song.mp3', 'B/new long.mp3']
-ROOTS = ['A', 'A/zzsub', 'B']
+ROOTS = ['A', 'A/zzsub', 'A/zzsub/deep', 'B']
 TERMS = ['song', 'long', 'ong', 'so', 'live', 'été', '片仮名', '01', 'mp3', '*ong', '*ive', '*so', '*oney', '-song',
          '-live', '-mp3', 'so_long', "long's", '[01]', '&', 'nomatch', 'SONG', 'deep\\long', 'live\\song_long',
          'honey', '*ong.mp3', '-', '*']
@@ -280,6 +280,17 @@ def scenarios(tier: str):
             out.append({'prefix': [list(ev), list(ev2)], 'depth': 2 if tier == 'quick' else 4})
             if tier != 'quick':
                 out.append({'prefix': [list(ev), list(ev2)], 'depth': 6, 'reduced': True})
+    # seeded non-initial states: three levels of nested roots, scanned or not
+    e = 'everyone'
+    seeds = [
+        [('add', 'A', e), ('add', 'A/zzsub', e), ('add', 'A/zzsub/deep', e)],
+        [('add', 'A', e), ('add', 'A/zzsub', e), ('add', 'A/zzsub/deep', e), ('scan-all',)],
+        [('add', 'A', e), ('scan', 'A'), ('add', 'A/zzsub', e), ('add', 'A/zzsub/deep', e)],
+        [('add', 'A', e), ('add', 'A/zzsub/deep', e), ('scan-all',), ('add', 'A/zzsub', e)],
+        [('add', 'A', e), ('add', 'B', e), ('scan-all',), ('create', EXTRA[0]), ('delete', 'A/song.mp3')],
+    ]
+    for sd in seeds:
+        out.append({'prefix': [list(x) for x in sd], 'depth': 2 if tier == 'quick' else 3})
     return out
 
 
